@@ -27,7 +27,13 @@
       EVERY parsed song is routed — no hypothesis left on parse + validate;
     * the components other properties model have no undefined-behaviour outcome:
       `C15_modelled_components_never_foreign` (RIFF C13, conf C20, VGM writer C08, WAV C14);
-    * the composition: `C15_pipeline_total_partial`, `C15_pipeline_terminates`.
+    * link (round 3): `C15_link_accepts_strict_files` — no foreign `Linker.Err` on any file C10's strict
+      reader accepts; `C15_exported_file_parses_partial`, `C15_link_stage_routed_partial` — that reader
+      accepts the converter's file under `LinkFileHyps`;
+    * export vgm (round 3): `C15_vgm_never_non_integer` (every input), `C15_vgm_export_no_ub_partial`
+      (`VgmDataHyps` = `PsgEnvsOK` + `FilesSmall`);
+    * the composition: `C15_pipeline_total_partial` (hypotheses per input: `ExportHyps`),
+      `C15_pipeline_terminates`; round 2's form is `C15_pipeline_total_under_stage_hyps`.
     * optimise: `C15_optimize_routed` — for every song without explicit `END` events that satisfies the
       decidable side conditions `OptDomain` (those of C01's termination theorem) and passed the
       validate stage, `optimizeStage` ends in the optimised song or an `InputError` with a message:
@@ -55,6 +61,7 @@
 -/
 import Ctrmml.Proofs.PipelineCompose
 import Ctrmml.Proofs.PipelineLink
+import Ctrmml.Proofs.PipelineRound3
 import Ctrmml.Properties.C13
 import Ctrmml.Properties.C20
 import Ctrmml.Properties.C08
@@ -261,14 +268,122 @@ theorem C15_link_stage_kinds (mds : Bytes) (k : String) (h : linkStage mds = .fo
 why `LinkOK` speaks about the converter's files only -/
 example : clsOf (linkStage [1, 2, 3]) = 2 := by decide
 
+
+/-- **The link stage never ends in a foreign outcome on a file the strict reader accepts.**  For EVERY
+byte string `f` that `LinkSpec.parseMds` (C10's strict container reader: RIFF `MDS0`, exactly one `ver `,
+`grp `, `seq `, `LIST dblk`, `pcmd`, supported version, every entry with its own pointer slot inside a
+sequence of at most 64 KiB, every PCM header addressing a window inside `pcmd`) accepts, with PCM windows
+shorter than 1 GiB: `add_song` on the fresh linker returns or throws the `InputError` "sample does not
+fit" / "malformed", `get_seq_data` returns or reports "data too large", the headers are generated.
+Excluded, constructor by constructor of `Linker.Err`: `outOfRange` (short `glob`/`pcmh` child, sample
+index, `find_unique_data` in the wave table), `invalidArgument`/`oob` of the RIFF reader, `oob` of the
+relocation (`data_offset[…]`: every patch value indexes the data bank — `Resolves` of C10's history
+invariant) and of `Wave_Bank::add_sample` (C14's allocator invariant), `hang`, `divZero`.  The 1 GiB
+bound is needed: `addPcmh_wrap_oob` (Proofs/PipelineLinkRun) shows that the model answers `oob` for a
+`pcmh` of size 2^32−256 behind a 256-byte sample (`fit_sample`'s 32-bit sum wraps) — a 4 GiB file,
+inside C14's recorded 1 GiB admissibility bound. -/
+theorem C15_link_accepts_strict_files (f : Bytes) (s : LinkSpec.SongIn) (h : LinkSpec.parseMds f = some s)
+    (hpcm : ∀ sl ∈ s.slots, ∀ rate bytes, sl.want = .pcm rate bytes → bytes.length < 1073741824) :
+    (linkStage f).routed :=
+  linkStage_routed_of_parse f s h hpcm
+
+/-- the hypotheses are met by C10's example file with two PCM entries and one data entry -/
+example : ∃ s, LinkSpec.parseMds Linker.exFileB = some s ∧ s.slots.length = 3 ∧
+    (∀ sl ∈ s.slots, ∀ rate bytes, sl.want = .pcm rate bytes → bytes.length < 1073741824) := by
+  have hB : (LinkSpec.parseMds Linker.exFileB).isSome = true := by decide +kernel
+  have hs := Linker.some_getD (LinkSpec.parseMds Linker.exFileB) ⟨[], [], []⟩ hB
+  have hl : Linker.exFileB.length < 1073741824 := by
+    have : Linker.exFileB.length = 202 := by decide +kernel
+    omega
+  refine ⟨_, hs, by decide +kernel, ?_⟩
+  intro sl hsl rate bytes hw
+  exact Nat.lt_of_le_of_lt (Linker.parseMds_pcm_le _ _ hs sl hsl rate bytes hw) hl
+
+/-- **The strict reader accepts the converter's own file** (partial).  For every input whose export
+succeeds: `LinkSpec.parseMds` returns the exported group and sequence bytes — the container `get_mds`
+serialises is byte for byte `Tree.file` of the five-chunk tree (C13's layout theorem), the spec's chunk
+splitter reads it back, the entries' pointer slots `sdata + 2·id` lie behind the track table inside the
+sequence and are pairwise different (`used_data_map` numbers its entries 0,1,2,…); `pcmd` is a prefix of the
+2 MiB wave rom (`pcmSmall_of_export`) and, the wave bank satisfying C14's allocator invariant, every stored
+sample header addresses a window inside it.  `_partial`: the five conditions of `LinkFileHyps` — `TreeSmall` (RIFF's 32-bit sizes), `PlatformClean` (no raw `cmd` with an
+index-bearing opcode; only used for the numbering), `SeqFits` (the `seq ` chunk is at most 64 KiB: NOT
+always true of the converter, which bounds only the START of each stream — `exported_rejected_of_long_seq`
+proves that the strict reader rejects such an export; the linker itself has no such bound),
+`SideFilesSmall` (side files below 1 GiB: C14's bound), `PcmKeysAreHeaders` (the PCM-tagged keys of
+`used_data_map` select items stored by `add_ins_pcm` — true of every export, the joint invariant of
+`read_song`'s maps and the writer's hook is not proved). -/
+theorem C15_exported_file_parses_partial {inp : MdsFile.Input} {o : MdsFile.Output}
+    (h : MdsFile.exportMds MdsData.Arith.float inp = .ok o) (hl : LinkFileHyps inp o) :
+    ∃ s, LinkSpec.parseMds o.file = some s ∧ s.group = inp.group.toUTF8.toList ∧ s.seq = MdsFile.toU8 o.built.seq ∧
+      (∀ sl ∈ s.slots, ∀ rate bytes, sl.want = .pcm rate bytes → bytes.length < 1073741824) :=
+  exported_parses_partial' h hl.small hl.clean hl.fits hl.files hl.headers
+
+/-- **The link stage on the converter's own output is routed** (partial: `LinkFileHyps`, see
+`C15_exported_file_parses_partial`) — what `LinkOK` of round 2 assumed. -/
+theorem C15_link_stage_routed_partial {inp : MdsFile.Input} {o : MdsFile.Output}
+    (h : MdsFile.exportMds MdsData.Arith.float inp = .ok o) (hl : LinkFileHyps inp o) :
+    (linkStage o.file).routed :=
+  linkStage_routed_of_export h hl
+
+/-- the full statement: no hypothesis besides the successful export -/
+def C15_link_stage_routed_full_statement : Prop :=
+  ∀ (inp : MdsFile.Input) (o : MdsFile.Output), MdsFile.exportMds MdsData.Arith.float inp = .ok o → (linkStage o.file).routed
+
+/-- a serialised container of the converter's shape (one `glob` entry, a 6-byte sequence, group "A", two
+bytes of `pcmd`) is accepted by the strict reader, the entry's slot is at offset 4 -/
+example : (LinkSpec.parseMds (MdsFile.mdsTree (MdsFile.toU8 [0, 4, 0, 0, 0, 0]) [65] [1, 2] [MdsFile.entryTree 0 0 1 0 [7, 8]]).file).map
+    (·.slots.map (·.addr)) = some [4] := by decide +kernel
+
+/-! ### export vgm -/
+
+/-- **The VGM export never takes a non-integer step**, for EVERY `MdDriver.Data`, song and tag map:
+`play_step`'s `|next_delta| < 1/10000` branch is unreachable (C07's clock invariant through the export
+loop), and no channel function raises that error (`ErrIn` tracing through the 30 functions between
+`keyOffPcm` and `exportLoop`, Proofs/PipelineVgmTrace). -/
+theorem C15_vgm_never_non_integer (d : MdDriver.Data) (song : Song) (m : MdDriver.TagMap) (st : MdDriver.Stamps) :
+    MdDriver.exportSong d song m st ≠ .error .nonInteger :=
+  vgm_never_nonInteger d song m st
+
+/-- **The VGM export has no undefined-behaviour outcome** (partial) on the data `read_song` built:
+no `vector::at` out of range — the PSG envelope stepper stays inside a well-formed envelope (`EnvOK`:
+level bytes and sustain marks, then `00` or `02 pp` with `pp` at or before the mark; the position is a
+`uint8_t`, an envelope longer than 256 bytes wraps to position 0; the default envelope ends at position 3
+where channels start), the PCM sample lookup indexes `wave_rom`'s headers (`waveMapOK_of_readSong`: the replayed
+`wave_map` and `read_song`'s `pcm` branch make the same `add_sample` calls; a PCM-typed id has an entry inside
+the header list) —, no non-integer step, no
+`VGM_Writer` fault (C08's theorem for banks built by `add_sample`).  `_partial`: `VgmDataHyps` —
+`PsgEnvsOK` (every PSG-typed instrument's stored bytes are `EnvOK`: true of `add_ins_psg`'s output, the
+induction over `psgToken` / `read_song` is not finished; for `Arith.float` it further needs C11's `SlideOK`),
+`FilesSmall` (side files below 1 GiB: C08's/C14's bound). -/
+theorem C15_vgm_export_no_ub_partial (inp : MdsFile.Input) (d : MdsFile.DState)
+    (hd : MdsFile.readSong MdsData.Arith.float inp.files inp.tags = .ok d) (hv : VgmDataHyps inp d)
+    (tm : MdDriver.TagMap) (st : MdDriver.Stamps) :
+    match MdDriver.exportSong (driverDataOf d inp.files inp.tags) inp.song tm st with
+    | .error .oob | .error .nonInteger | .error (.vgm _) => False
+    | _ => True :=
+  vgm_export_no_ub_partial2 inp d hd hv.psg hv.files tm st
+
+/-- the full statement: no hypothesis besides `read_song`'s success -/
+def C15_vgm_export_no_ub_full_statement : Prop := vgm_export_no_ub_full_statement
+
+/-- `VgmDataHyps` is met by the state of a song without instrument definitions and side files -/
+example : VgmDataHyps { song := { tracks := [] } } { st := MdsData.initState false } := by
+  refine ⟨?_, fun n f h => (by cases h)⟩
+  intro id ty hm ht
+  simp only [MdsData.initState, MdsData.mget, List.find?] at hm
+  split at hm
+  · simp only [Option.map_some, Option.some.injEq] at hm; subst hm; cases ht
+  · cases hm
+
 /-! ### the composition -/
 
-/-- **Composite (partial).**  For every text, every set of side files, with or without `-O`,
+/-- **Composite of round 2** (kept; superseded by `C15_pipeline_total_partial` below, whose hypotheses are
+per input — `StageHyps`'s `MdsBudgetOK` / `VgmNoUB` / `LinkOK` quantify over all inputs of the stage).  For every text, every set of side files, with or without `-O`,
 for the three tools' paths: if the stages listed in `StageHyps` behave and — with `-O` — the parsed
 song is in `OptDomain`, then with enough validator steps and optimiser passes the pipeline ends in
 output or in an input error carrying a message.  Parse, validate, optimise (on `OptDomain`) and
 sample loading are discharged by the theorems above; nothing is assumed about them. -/
-theorem C15_pipeline_total_partial (u : Residual) (files : List (String × Bytes)) (opt : Bool) (fmt : Format)
+theorem C15_pipeline_total_under_stage_hyps (u : Residual) (files : List (String × Bytes)) (opt : Bool) (fmt : Format)
     (hu : StageHyps u fmt) (text : List Nat) (hdom : opt = true → OptInDomain text) :
     ∃ S P, ∀ b : Budget, b.steps ≥ S → b.passes ≥ P → (pipeline u files opt fmt b text).routed := by
   unfold pipeline pipelineS
@@ -325,6 +440,83 @@ theorem C15_pipeline_total_partial (u : Residual) (files : List (String × Bytes
                 rw [ho2] at this
                 exact Out.map_routed _ _ this
 
+/-- **Composite (partial), hypotheses per input.**  For every text, every set of side files, with or
+without `-O`, for the three tools' paths: with enough validator steps and optimiser passes the pipeline
+ends in output or in an input error carrying a message, given `ExportHyps` (Proofs/PipelineRound3) —
+conditions about the inputs THIS run hands to its export stage (`Reaches`: the parsed song, or with `-O`
+a result of the optimise stage), each a conjunction of named conditions:
+mds / link — the MODEL's writer budget is not exhausted on the song; vgm — `VgmDataHyps` (`PsgEnvsOK`,
+`FilesSmall`; the non-integer step and the PCM lookup need nothing); link — `LinkFileHyps` (`TreeSmall`,
+`PlatformClean`, `SeqFits`, `SideFilesSmall`, `PcmKeysAreHeaders`); the two residuals routed; and with `-O`
+the parsed song in `OptDomain`.  Parse, validate, optimise (on `OptDomain`), sample loading, the
+converter's undefined-behaviour constructors, the linker on an accepted file and the driver's clock are
+discharged by the theorems above. -/
+theorem C15_pipeline_total_partial (u : Residual) (files : List (String × Bytes)) (opt : Bool) (fmt : Format)
+    (text : List Nat) (hu : ExportHyps u files opt fmt text) (hdom : opt = true → OptInDomain text) :
+    ∃ S P, ∀ b : Budget, b.steps ≥ S → b.passes ≥ P → (pipeline u files opt fmt b text).routed := by
+  unfold pipeline pipelineS
+  have hp := parseStage_routed text
+  cases hps : parseStage text with
+  | inputError m =>
+    rw [hps] at hp
+    exact ⟨0, 0, fun _ _ _ => hp⟩
+  | foreign k =>
+    rw [hps] at hp
+    exact hp.elim
+  | ok st =>
+    simp only []
+    · have hend' : hasEndEvent (songOf st) = false := parseStage_noEnd text st hps
+      obtain ⟨F, hF⟩ := C15_validate_routed (songOf st) hend'
+      obtain ⟨S, P, hSP⟩ : ∃ S P, opt = true → ∀ steps passes, steps ≥ S → passes ≥ P →
+          validateSong (songOf st) steps = .ok () → (optimizeStage (songOf st) steps passes).routed := by
+        cases opt with
+        | false => exact ⟨0, 0, fun h => by cases h⟩
+        | true =>
+          obtain ⟨S, P, h⟩ := C15_optimize_routed (songOf st) hend' (hdom rfl st hps)
+          exact ⟨S, P, fun _ => h⟩
+      refine ⟨max F S, P, fun b hs hpz => ?_⟩
+      have hv := hF b.steps (by omega)
+      cases hvs : validateSong (songOf st) b.steps with
+      | inputError m => rw [hvs] at hv; exact hv
+      | foreign k => rw [hvs] at hv; exact hv.elim
+      | ok _ =>
+        simp only []
+        have ho : (if opt then optimizeStage (songOf st) b.steps b.passes else Out.ok (songOf st)).routed := by
+          cases opt
+          · simp [Out.routed]
+          · simp only [if_true]; exact hSP rfl b.steps b.passes (by omega) hpz hvs
+        cases hos : (if opt then optimizeStage (songOf st) b.steps b.passes else Out.ok (songOf st)) with
+        | inputError m => rw [hos] at ho; exact ho
+        | foreign k => rw [hos] at ho; exact ho.elim
+        | ok song' =>
+          simp only []
+          have hreach : Reaches st opt song' := by
+            unfold Reaches
+            cases opt
+            · simp only [Bool.false_eq_true, if_false] at hos ⊢
+              injection hos with hos
+              exact hos.symm
+            · simp only [if_true] at hos ⊢
+              exact ⟨b.steps, b.passes, hos⟩
+          cases fmt with
+          | mds => exact exportMdsStage_routed3 u hu.mdsGap _ _ (hu.budget (by decide) st song' hps hreach)
+          | vgm => exact exportVgmStage_routed3 u hu.vgmPlay hu.mdsGap _ _ (fun d hd => hu.vgm rfl st song' d hps hreach hd)
+          | link =>
+            simp only []
+            split
+            · exact hu.mdsGap _
+            · rename_i hin
+              have he := exportMdsStage_routed3 u hu.mdsGap { (mdsInputOf st files).1 with song := song' } (mdsInputOf st files).2
+                (hu.budget (by decide) st song' hps hreach)
+              cases hes : exportMdsStage u { (mdsInputOf st files).1 with song := song' } (mdsInputOf st files).2 with
+              | inputError m => rw [hes] at he; exact he
+              | foreign k => rw [hes] at he; exact he.elim
+              | ok mds =>
+                obtain ⟨o, ho1, ho2⟩ := exportMdsStage_ok (by simpa using hin) hes
+                have := linkStage_routed_of_export ho1 (hu.link rfl st song' o hps hreach ho1)
+                rw [ho2] at this
+                exact Out.map_routed _ _ this
+
 /-- **The mds export path without `-O`, no residual at all (partial).**  For every text that parses
 into a state `st` whose definitions and platform commands are inside the converter's models
 (`mdsOutside … = false`, decided by evaluation) and whose conversion stays within the model's
@@ -368,7 +560,7 @@ theorem C15_pipeline_total_mds_partial (u : Residual) (files : List (String × B
 /-- its hypotheses on a concrete text, decided by evaluation in the kernel (a song whose only track
 is not a channel track, so that the kernel does not have to unfold the writer's 20 000 000-step
 budget; the check's model stream evaluates them on every generated input) -/
-example : ∃ st, parseStage (Lexer.strBytes "*100 c") = .ok st ∧
+theorem exStar100 : ∃ st, parseStage (Lexer.strBytes "*100 c") = .ok st ∧
     mdsOutside (mdsInputOf st []).1 (mdsInputOf st []).2 = false ∧
     (match MdsFile.exportMds MdsData.Arith.float (mdsInputOf st []).1 with
       | .error e => ferrIsBudget e = false | .ok _ => True) := by
@@ -402,15 +594,27 @@ example : clsOf (pipeline okResidual [] false .vgm { steps := 50, passes := 1 } 
     clsOf (pipeline okResidual [] false .link { steps := 50, passes := 1 } (Lexer.strBytes "A *1")) = 1 := by
   refine ⟨by decide +kernel, by decide +kernel⟩
 
+/-- `ExportHyps` of `C15_pipeline_total_partial` on a concrete text (mds path, no `-O`): the only input
+that reaches the export stage is the parsed song, and the budget condition is decided by evaluation -/
+example : ExportHyps okResidual [] false .mds (Lexer.strBytes "*100 c") := by
+  obtain ⟨st0, h0, _, hb⟩ := exStar100
+  refine ⟨fun _ st song' hps hr => ?_, fun h => (by cases h), fun h => (by cases h), fun _ _ => trivial, fun _ => trivial⟩
+  rw [h0] at hps
+  injection hps with hps
+  subst hps
+  have : song' = songOf st0 := by simpa [Reaches] using hr
+  subst this
+  exact hb
+
 /-- `OptInDomain` on a concrete text (decided by evaluation: `optInDomain_of_check`) -/
 example : OptInDomain (Lexer.strBytes "A o4l4 cdefg") := optInDomain_of_check _ (by decide +kernel)
 
 /-- **Termination of the modelled part**: under the same hypotheses the pipeline never answers
 `foreign "hang"` (the outcome of the validator's, optimiser's and writer's step budgets). -/
 theorem C15_pipeline_terminates (u : Residual) (files : List (String × Bytes)) (opt : Bool) (fmt : Format)
-    (hu : StageHyps u fmt) (text : List Nat) (hdom : opt = true → OptInDomain text) :
+    (text : List Nat) (hu : ExportHyps u files opt fmt text) (hdom : opt = true → OptInDomain text) :
     ∃ S P, ∀ b : Budget, b.steps ≥ S → b.passes ≥ P → pipeline u files opt fmt b text ≠ .foreign "hang" := by
-  obtain ⟨S, P, h⟩ := C15_pipeline_total_partial u files opt fmt hu text hdom
+  obtain ⟨S, P, h⟩ := C15_pipeline_total_partial u files opt fmt text hu hdom
   refine ⟨S, P, fun b hs hp heq => ?_⟩
   have := h b hs hp
   rw [heq] at this
@@ -434,7 +638,7 @@ theorem C15_modelled_components_never_foreign :
 
 /-- The full statement over the pipeline model: the conclusion of `C15_pipeline_total_partial`
 with residual stages that are themselves routed and NO hypothesis on the modelled stages (neither
-`StageHyps`'s `MdsBudgetOK` / `VgmNoUB` / `LinkOK` nor `OptInDomain`). -/
+`ExportHyps`'s budget / `VgmDataHyps` / `LinkFileHyps` nor `OptInDomain`). -/
 def C15_full_statement : Prop :=
   ∀ (u : Residual), (∀ inp d, (u.vgmPlay inp d).routed) → (∀ inp, (u.mdsGap inp).routed) →
     ∀ (files : List (String × Bytes)) (opt : Bool) (fmt : Format) (text : List Nat),
